@@ -6,7 +6,7 @@ use std::{
     sync::Mutex,
 };
 
-use metrics::{Key, Label, Level, Metadata, Recorder};
+use metrics::{Key, Label, Level, Metadata, Recorder, Unit};
 use metrics_exporter_prometheus::{Matcher, PrometheusBuilder, PrometheusHandle};
 
 use crate::{
@@ -67,6 +67,8 @@ struct Config {
     /// summary window: (bucket duration in ns, bucket count); None = the builder's default (20 s x 3)
     window: Option<(u64, u32)>,
     quantiles: Option<Vec<f64>>,
+    /// unit suffixes enabled: a described unit (other than count) becomes part of the family name
+    unit_suffix: bool,
 }
 
 #[derive(Debug)]
@@ -108,7 +110,7 @@ fn dec_cfg_keys(src: &mut Source) -> (Config, Vec<KeySpec>) {
         }
     }
     let full_override = if buckets.is_none() && src.chance(80) { Some(src.below(nk)) } else { None };
-    (Config { buckets, full_override, globals, window: None, quantiles: None }, keys)
+    (Config { buckets, full_override, globals, window: None, quantiles: None, unit_suffix: false }, keys)
 }
 
 fn dec_value(src: &mut Source) -> f64 {
@@ -187,11 +189,13 @@ fn decode(src: &mut Source) -> Case {
             }
         }
     }
+    // a quarter of the histories run with unit suffixes on (drawn last); descriptions always carry a unit
+    cfg.unit_suffix = src.below(4) == 3;
     Case { cfg, keys, steps }
 }
 
 fn build(cfg: &Config, keys: &[KeySpec]) -> metrics_exporter_prometheus::PrometheusRecorder {
-    let mut b = PrometheusBuilder::new();
+    let mut b = PrometheusBuilder::new().set_enable_unit_suffix(cfg.unit_suffix);
     if let Some(bk) = &cfg.buckets {
         b = b.set_buckets(bk).unwrap();
     }
@@ -234,6 +238,28 @@ struct Model {
     gauge: f64,
     samples: Vec<f64>,
     desc: Option<String>,
+    /// unit given with the first description (descriptions are insert-if-missing: text and unit together)
+    unit: Option<Unit>,
+}
+
+/// The unit a description step carries (a function of its text, so that the step type stays as it was).
+fn unit_of(text: &str) -> Option<Unit> {
+    match text.chars().count() % 4 {
+        0 => None,
+        1 => Some(Unit::Seconds),
+        2 => Some(Unit::Bytes),
+        _ => Some(Unit::Count),
+    }
+}
+
+/// Family name: the sanitised metric name, plus `_<unit>` when unit suffixes are on and the family was described
+/// with a unit other than count.
+fn ref_family_name(cfg: &Config, name: &str, unit: Option<Unit>) -> String {
+    let base = ref_metric_name(name);
+    match unit {
+        Some(u) if cfg.unit_suffix && u != Unit::Count => format!("{}_{}", base, u.as_str()),
+        _ => base,
+    }
 }
 
 fn buckets_for(cfg: &Config, keys: &[KeySpec], idx: usize) -> Option<Vec<f64>> {
@@ -262,7 +288,7 @@ fn check_render(cfg: &Config, keys: &[KeySpec], models: &[Model], text: &str) ->
         if !m.registered {
             continue;
         }
-        let fname = ref_metric_name(&k.name);
+        let fname = ref_family_name(cfg, &k.name, m.unit);
         let Some(f) = fams.iter().find(|f| f.name == fname) else {
             return Err(Fail::new("series-missing", format!("metric {:?} (family {:?}) was registered but is not rendered ; output {:?}", k.name, fname, text)));
         };
@@ -429,14 +455,19 @@ fn run_history(case: &Case, mock: &quanta::Mock, ctx: &mut Ctx) -> Result<(), Fa
             }
             Step::Describe(k, d) => {
                 let name = case.keys[*k].name.clone();
+                let unit = unit_of(d);
                 match case.keys[*k].kind {
-                    'c' => rec.describe_counter(name.into(), None, d.clone().into()),
-                    'g' => rec.describe_gauge(name.into(), None, d.clone().into()),
-                    _ => rec.describe_histogram(name.into(), None, d.clone().into()),
+                    'c' => rec.describe_counter(name.into(), unit, d.clone().into()),
+                    'g' => rec.describe_gauge(name.into(), unit, d.clone().into()),
+                    _ => rec.describe_histogram(name.into(), unit, d.clone().into()),
                 }
                 for (j, other) in case.keys.iter().enumerate() {
                     if other.name == case.keys[*k].name && models[j].desc.is_none() {
                         models[j].desc = Some(d.clone());
+                        models[j].unit = unit;
+                        if case.cfg.unit_suffix && unit.map(|u| u != Unit::Count).unwrap_or(false) {
+                            ctx.nontrivial("family-named-with-its-unit");
+                        }
                     }
                 }
                 last_render = None;
